@@ -17,8 +17,8 @@
 (***************************************************************************)
 EXTENDS MC_Prepare, Json, TLCExt
 
-VARIABLES last, proj
-gvars == <<S, last, proj>>
+VARIABLES last, proj, hist
+gvars == <<S, last, proj, hist>>
 
 Act(a, e, f, k, kind) == [a |-> a, e |-> e, f |-> f, k |-> k, kind |-> kind]
 NoAct == Act("Init", "-", 0, NoKey, "-")
@@ -73,14 +73,18 @@ Proj(T) ==
    nprep |-> [k \in {k \in DOMAIN T.nprep : T.nprep[k] > 0} |-> T.nprep[k]],
    quiet |-> Internal(T) = {}]
 
-GenInit == Init /\ last = NoAct /\ proj = Proj(S)
-GenNext == LET I == Internal(S) IN
-           \E x \in (IF I # {} THEN I ELSE Commands(S)) :
-              LET T == Apply(S, x) IN S' = T /\ last' = x /\ proj' = Proj(T)
+GenInit == Init /\ last = NoAct /\ proj = Proj(S) /\ hist = <<>>
+Step(x) == LET T == Apply(S, x) IN S' = T /\ last' = x /\ proj' = Proj(T)
+Choices == LET I == Internal(S) IN IF I # {} THEN I ELSE Commands(S)
+\* exhaustive search for the targets below (the behaviour is read from TLC's counterexample)
+GenNext == \E x \in Choices : Step(x) /\ hist' = hist
 GenSpec == GenInit /\ [][GenNext]_gvars
-
-Emit == PrintT(<<"STEP", ToJson([act |-> last, st |-> proj,
-                                  plan |-> IF last.a = "Init" THEN S.plan ELSE <<>>])>>)
+\* random walks (-simulate): the history is carried in the state and printed where the walk ends.
+\* (TLC evaluates an invariant on candidate successors it may not follow; every printed history
+\* is a behaviour of GenSpec all the same.)
+WalkNext == \E x \in Choices : Step(x) /\ hist' = Append(hist, [act |-> x, st |-> Proj(Apply(S, x))])
+WalkSpec == GenInit /\ [][WalkNext]_gvars
+EmitWalk == (Choices = {} /\ hist # <<>>) => PrintT(<<"WALK", ToJson([plan |-> S.plan, steps |-> hist])>>)
 
 \* ------------------------------------------------------------------------
 \* Targets: TLC's counterexample to "never X" is a shortest behaviour that does X.
